@@ -219,15 +219,12 @@ Proof.
   cbn [forallb atom_holds]. rewrite H1, H2, H3, E. reflexivity.
 Qed.
 
-Lemma dead_init_any_shape e : dead_init_emitted (info_of e) = true.
+(* tripwire: the scraped condition does not look at the analyzer's `sideeffect` attribute (an added conjunct
+   5 = valnode.attr.sideeffect makes this false: field access, indexing and dereference do not propagate it) *)
+Lemma dead_init_any_attr se : dead_init_emitted (info_rt se) = true.
 Proof. unfold dead_init_emitted. rewrite dead_init_atoms. reflexivity. Qed.
-
-(* the analyzer's attribute cannot stand in for "has an effect": a field of a marked call's result *)
-Lemma se_attr_incomplete : exists e, effectful e = true /\ attr_se e = false.
-Proof. exists (IField (ICall true [])). split; reflexivity. Qed.
-(* a condition that also asked for the attribute would drop that call *)
 Example attr_condition_drops_call :
-  forallb (fun a => atom_holds a (info_of (IField (ICall true [])))) [1%nat; 2%nat; 5%nat; 3%nat; 4%nat] = false.
+  forallb (fun a => atom_holds a (info_rt false)) [1%nat; 2%nat; 5%nat; 3%nat; 4%nat] = false.
 Proof. reflexivity. Qed.
 
 Example ex_is_used : is_used 10 (graph_of [0%nat] [(1%nat, [0%nat]); (2%nat, [1%nat; 3%nat]); (3%nat, [2%nat])]) [] 3 = Some (true, [1%nat; 2%nat; 3%nat]).
